@@ -253,6 +253,12 @@ def main(tier, seed, replay=None):
         wstats, _, _, _ = WC.world_leg(run, PROP, rng, tier, drv, har, 150 if tier == "quick" else 1500,
                                        [WC.monitor_one_node_per_location, WC.monitor_null_build], scen_gen=spelled,
                                        replay=replay if world_replay else None)
+    # command-line leg: every short string as a target against a manifest that declares `a`, `a/`, `a/b`, `out/gen`, `out/gen/`
+    tstats = {}
+    if not replay:
+        import c12
+        c12.target_leg(run, rng, har, drv, tier, tstats, prop=PROP)
+    wstats = dict(wstats, command_line_targets=tstats)
     run.coverage.update(info)
     run.coverage.update({
         "checker_cmd": "make -C coq theories/Props/C13.vo && coqc Gate_C13.v (Check pinned statements + Print Assumptions)" + ("; coqchk -o" if tier == "thorough" else ""),
